@@ -48,6 +48,8 @@ def tight_ok(left, right):
     """A word/word boundary that needs no blank in Color BASIC: keyword next to keyword or number (GOTO10, 1TO5, THENPRINT,
     PALETTECMP).  Keyword/identifier boundaries keep their blank (the property says so), and so do boundaries where
     dropping it could merge into another token (hex digits, an exponent E, a name the keyword could be glued to)."""
+    if left.isdigit() and (right == "DATA" or right.startswith(("REM", "'"))):
+        return True                 # 10REM text, 20DATA items: the keyword may touch the line number
     lk, rk = left in TIGHT_WORDS, right in TIGHT_WORDS
     if lk and rk:
         return True
@@ -348,7 +350,22 @@ def run_case(case):
     return obs
 
 
+# comment text and unquoted DATA items in mixed case, standing first on their line (so that with no blanks the keyword
+# touches the line number) and behind a numeric constant: content is content wherever the keyword stands
+CONTENT_PROGS = [
+    [(10, [("rem", " Copyright 1986 by Jane Doe", "REM")]), (20, [("data", [("u", "Red"), ("u", "light blue"), ("q", "Mixed Case")])]),
+     (30, [("read", [("var", "A$"), ("var", "B$"), ("var", "C$")]), ("print", [("e", ("var", "A$")), ("sep", ";"), ("e", ("var", "C$"))], None)])],
+    [(10, [("let", ("var", "A"), ("num", 1.0, ["1"]), False), ("rem", " note Two", "REM")]), (20, [("rem", " it's Here", "'")]),
+     (30, [("data", [("u", "x"), ("n", 5.0, ["5"]), ("u", "Yes No")])])],
+    [(5, [("data", [("u", "rem not a comment"), ("u", "Data")])]), (7, [("rem", "data Not items, really", "REM")])],
+]
+
+
 def cases(tier, seed):
+    for pr in CONTENT_PROGS:
+        for md in ("family", "sweep"):
+            for o in ({}, {"initialize_vars": True, "filter_unused_linenum": True}):
+                yield {"mode": md, "prog": pr, "seed": seed, "opts": o}
     n = 250 if tier == "quick" else 30000
     for i in range(n):
         yield {"mode": "family", "seed": seed * 3571 + i, "knobs": {"max_depth": 1 + i % 2}, "nlines": 2 + i % 5,
